@@ -76,7 +76,14 @@ def classes():
             d['v_log'].append(('eval_after', iteration, tuple(submodels or ())))
             s = d['v_lscript']
             o = s[iteration - 1] if iteration - 1 < len(s) else 'same'
-            d['_L'][t] = scripted.apply_outcome(float(d['_L'][t]), o, d['v_tol'])
+            val = scripted.apply_outcome(float(d['_L'][t]), o, d['v_tol'])
+            if (d.get('v_write_mode') or 'inplace') == 'inplace':
+                d['_L'][t] = val
+            else:
+                # the same assignment through a whole-series write (a Python sequence replaces the stored array)
+                series = [float(v) for v in d['_L']]
+                series[t] = float(val)
+                self.L = series
             # record every check value after this iteration
             snap = {'_': [float(d['_L'][t])]}
             for key, sm in d['submodels'].items():
@@ -90,6 +97,9 @@ def classes():
 def build(case):
     Sub, Linker = classes()
     n = case['n']
+    if 'write_mode' not in case:
+        from .common import h64
+        case['write_mode'] = scripted.WRITE_MODES[h64(['wm', case]) % len(scripted.WRITE_MODES)]
     subs = {}
     shared = []
     for key, script in case['subs'].items():
@@ -104,8 +114,10 @@ def build(case):
                 return orig(t, **kw)
             return _evaluate
         m.__dict__['_evaluate'] = make_eval()
+        m.__dict__['v_write_mode'] = case['write_mode']
         subs[key] = m
     linker = Linker(subs, lscript=case['lscript'], tol=case['tol'], Q=1.0)
+    linker.__dict__['v_write_mode'] = case['write_mode']
     linker.__dict__['v_log'] = shared
     for i in range(len(linker.span)):
         linker.L[i] = 5.0 * i
